@@ -1,7 +1,6 @@
 package main
 
 import (
-	"sync"
 	"fmt"
 	"go/ast"
 	"go/token"
@@ -9,6 +8,7 @@ import (
 	"os"
 	"sort"
 	"strings"
+	"sync"
 
 	"golang.org/x/tools/go/callgraph"
 	"golang.org/x/tools/go/packages"
@@ -212,7 +212,7 @@ func (w *World) Funcs(rel string) []*FuncInfo {
 	if w.memo == nil {
 		w.memo = map[string]interface{}{}
 	}
-	k := "Funcs/"+rel
+	k := "Funcs/" + rel
 	if v, ok := w.memo[k]; ok {
 		w.memoMu.Unlock()
 		return v.([]*FuncInfo)
